@@ -601,6 +601,7 @@ MICRO_STEPS_MSG = [('W', 1), ('B', 1, 3), ('C', 1, 7), ('X', 1), ('Q', 1), ('GB'
 
 
 def micro_cases(r, deep):
+    # deep: 0 / 1 = a sample, 2 = all
     """faults injected at micro-steps: after only n iterations of the event loop following an
     event (between data_received and the first handler step, between the registration of a
     request future and the write, inside the teardown, ...) the link drops / breaks / abort() /
@@ -619,21 +620,26 @@ def micro_cases(r, deep):
                                      'stalled': False},
                                     list(pre) + [('M', k, f), step, ('A', TAIL)]))
                         n += 1
-    if not deep:
+    if deep < 2:
         r.shuffle(out)
-        out = out[:600]
+        out = out[:600 if deep == 0 else 2000]
     return out
 
 
 def run(ctx):
+    """three depths: 0 = quick; 1 = quick tier re-run after a fingerprint drift / broken
+    obligation (lib/vcheck.py has just run depth 0 with the seed and now calls again with
+    `deep` set and the seed + 1: larger random samples, no second enumeration); 2 = thorough"""
+    level = 2 if ctx.tier == 'thorough' else (1 if ctx.deep else 0)
     res = Results()
+    res['scopes']['depth'] = level
     corp = [parse_case(ln) for ln in corpus_lines(ctx.verif, 'C08')]
     if corp:
         evaluate(ctx, corp, res, 'corpus')
     res['scopes']['corpus'] = len(corp)
 
     # callers beyond the outgoing limit
-    mass = mass_cases(ctx.deep)
+    mass = mass_cases(level == 2)
     if not res.failed:
         evaluate(ctx, mass, res, 'mass_outgoing')
     res['scopes']['mass_outgoing'] = len(mass)
@@ -641,7 +647,7 @@ def run(ctx):
     # lifecycle-model cases: exhaustive short + random
     lts = []
     n = 0
-    scopes = [(LTS_ALPHA_QUICK, 3)] if not ctx.deep else [(LTS_ALPHA, 3), (LTS_ALPHA_QUICK, 4)]
+    scopes = {0: [(LTS_ALPHA_QUICK, 3)], 1: [], 2: [(LTS_ALPHA, 3), (LTS_ALPHA_QUICK, 4)]}[level]
     seen = set()
     for alpha, maxlen in scopes:
         for ln in range(1, maxlen + 1):
@@ -656,7 +662,7 @@ def run(ctx):
                         cfg['ptimeout'] = 5 if n % 2 else 12
                     lts.append((cfg, expand_lts(letters, skind)))
                     n += 1
-    lts += [random_lts_case(ctx.rng) for _ in range(30000 if ctx.deep else 3000)]
+    lts += [random_lts_case(ctx.rng) for _ in range({0: 3000, 1: 9000, 2: 25000}[level])]
     if not res.failed:
         evaluate(ctx, lts, res, 'lifecycle')
     res['scopes']['lifecycle'] = {'scopes': [[a, m] for a, m in scopes], 'cases': len(lts)}
@@ -664,35 +670,37 @@ def run(ctx):
     # crash-point enumeration
     main_faults = ['drop_error', 'close', 'close2_stalled', 'handler_close', 'abort', 'drop_then_close',
                    'handler_close_long_stalled', 'close_cancelled_stalled', 'crash_then_close_stalled']
-    jobs = crash_cases('rpc', RPC_STEPS_QUICK, 2)
-    jobs += crash_cases('msg', MSG_STEPS_QUICK, 2, start=1)
-    f3 = FAULTS if ctx.deep else main_faults[:6]
-    jobs += crash_cases('rpc', RPC_STEPS_QUICK, 3, faults=f3, minlen=3)
-    jobs += crash_cases('msg', MSG_STEPS_QUICK, 3, faults=f3, start=1, minlen=3)
-    if ctx.deep and not res.failed:
+    jobs = []
+    if level != 1:
+        jobs += crash_cases('rpc', RPC_STEPS_QUICK, 2)
+        jobs += crash_cases('msg', MSG_STEPS_QUICK, 2, start=1)
+        f3 = FAULTS if level == 2 else main_faults[:6]
+        jobs += crash_cases('rpc', RPC_STEPS_QUICK, 3, faults=f3, minlen=3)
+        jobs += crash_cases('msg', MSG_STEPS_QUICK, 3, faults=f3, start=1, minlen=3)
+    if level == 2 and not res.failed:
         jobs += crash_cases('rpc', RPC_STEPS_QUICK, 4, faults=main_faults[:6], minlen=4)
         jobs += crash_cases('msg', MSG_STEPS_QUICK, 4, faults=main_faults[:6], start=1, minlen=4)
         jobs += crash_cases('rpc', RPC_STEPS_FULL, 2)
         jobs += crash_cases('msg', MSG_STEPS_FULL, 2, start=1)
-    else:
+    elif level == 0:
         jobs += crash_cases('rpc', RPC_STEPS_FULL, 1)
         jobs += crash_cases('msg', MSG_STEPS_FULL, 1, start=1)
-    if not res.failed:
+    if jobs and not res.failed:
         evaluate(ctx, jobs, res, 'crashpoint_exhaustive')
     res['scopes']['crashpoint_exhaustive'] = {
         'rpc_alphabet': RPC_STEPS_QUICK, 'msg_alphabet': MSG_STEPS_QUICK,
-        'max_len_all_faults': 3 if ctx.deep else 2, 'max_len_main_faults': 4 if ctx.deep else 3,
+        'max_len_all_faults': {0: 2, 1: 0, 2: 3}[level], 'max_len_main_faults': {0: 3, 1: 0, 2: 4}[level],
         'main_faults': main_faults,
         'full_alphabets': [RPC_STEPS_FULL, MSG_STEPS_FULL],
-        'full_alphabet_max_len': 2 if ctx.deep else 1,
+        'full_alphabet_max_len': {0: 1, 1: 0, 2: 2}[level],
         'faults': FAULTS, 'runs': len(jobs)}
-    rnd = random_crash_cases(ctx.rng, 120000 if ctx.deep else 5000, 8 if ctx.deep else 6)
+    rnd = random_crash_cases(ctx.rng, {0: 5000, 1: 12000, 2: 90000}[level], 8 if level == 2 else 6)
     if not res.failed:
         evaluate(ctx, rnd, res, 'crashpoint_random')
     res['scopes']['crashpoint_random'] = len(rnd)
 
     # faults at micro-steps (oracle only)
-    mic = micro_cases(ctx.rng, ctx.deep)
+    mic = micro_cases(ctx.rng, level)
     if not res.failed:
         evaluate(ctx, mic, res, 'microstep')
     res['scopes']['microstep'] = len(mic)
